@@ -1695,6 +1695,12 @@ func (l *lexer) emit(typ int) {
 	if typ != '\n' {
 		l.tokLine = l.line
 	}
+	select {
+	case <-l.cancel:
+		// bailout
+		panic(errBailout)
+	default:
+	}
 	vsend(l)
 	select {
 	case l.token <- tok:
